@@ -257,6 +257,12 @@ def check(case: dict) -> dict:
                 hn.api_write(ch)
                 await hn.sleep(0.01)
             await hn.sleep(1.0)
+            # the reactor reads one command per process and loop iteration, and an idle iteration may sleep 0.1 s: the time to
+            # wait grows with the number of commands (a fixed 2 s was a harness error: a 29th command was "not executed")
+            waited = 0.0
+            while len(seen) < len(cmds) and waited < 2.0 + 0.3 * len(cmds):
+                await hn.sleep(0.2)
+                waited += 0.2
             # settle: the handlers of some commands run as scheduled callbacks
             for _ in range(5):
                 await hn.sleep(0.2)
